@@ -241,3 +241,7 @@ def run(ck):
     rule_cut(ck)
     rule_derived(ck)
     rule_restore(ck)
+    # "a queue restored from JSON behaves identically": every attribute of the queue and of the pending events - timestamp,
+    # type and precedence (public, user-settable, it breaks ties) - is dumped and restored (engine shared with C09)
+    from .c09 import rule_agreement
+    rule_agreement(ck, classes=("EventQueue", "Event", "EVEvent", "PluginEvent", "UnplugEvent", "RecomputeEvent"), rid="C11.R6s", rid2="C11.R6s")
